@@ -187,8 +187,9 @@ func generateOutput(nodeSet [][]*Node, query parser.Query) [][]interface{} {
 		for _, outputFormat := range query.SelectOutput {
 			switch outputFormat.Type {
 			case "string":
-				outputFormat.SelectEntity = strings.ReplaceAll(outputFormat.SelectEntity, "\"", "")
-				result = append(result, outputFormat.SelectEntity)
+				// the literal without its delimiting quotes; quotes inside it belong to the text
+				literal := strings.TrimSuffix(strings.TrimPrefix(outputFormat.SelectEntity, "\""), "\"")
+				result = append(result, literal)
 			case "method_chain", "variable":
 				if outputFormat.Type == "variable" {
 					outputFormat.SelectEntity += ".toString()"
